@@ -317,6 +317,10 @@ class HeaderPacketReceiver(Elaboratable):
         last_enable = Signal()
         m.d.ss     += last_enable.eq(self.enable)
 
+        # Strobe; asserted when the link has just been disabled, or while a USB reset is in progress.
+        link_reset  = Signal()
+        m.d.comb   += link_reset.eq((last_enable & ~self.enable) | self.usb_reset)
+
         #
         # Header Packet Buffers
         #
@@ -489,41 +493,9 @@ class HeaderPacketReceiver(Elaboratable):
 
 
 
-                # Once we've become disabled, we'll want to prepare for our next enable.
-                # This means preparing for our advertisement, by:
-                with m.If((last_enable & ~self.enable) | self.usb_reset):
-                    m.d.ss += [
-                        # -Resetting our pending ACKs to 1, so we perform an sequence number advertisement
-                        #  when we're next enabled.
-                        acks_to_send          .eq(1),
-
-                        # -Decreasing our next sequence number; so we maintain a continuity of sequence numbers
-                        #  without counting the advertising one. This doesn't seem to be be strictly necessary
-                        #  per the spec; but seem to make analyzers happier, so we'll go with it.
-                        next_header_to_ack    .eq(next_header_to_ack - 1),
-
-                        # - Clearing all of our buffers.
-                        read_pointer          .eq(0),
-                        write_pointer         .eq(0),
-                        buffers_filled        .eq(0),
-
-                        # - Preparing to re-issue all of our buffer credits.
-                        next_credit_to_issue  .eq(0),
-                        credits_to_issue      .eq(self._buffer_count),
-
-                        # - Clear our pending events.
-                        lrty_pending          .eq(0),
-                        lbad_pending          .eq(0),
-                        keepalive_pending     .eq(0),
-                        ignore_packets        .eq(0)
-                    ]
-
-                    # If this is a USB Reset, also reset our sequences.
-                    with m.If(self.usb_reset):
-                        m.d.ss += [
-                            expected_sequence_number  .eq(0),
-                            next_header_to_ack        .eq(-1)
-                        ]
+                # If the link is going down, don't start anything new.
+                with m.If(link_reset):
+                    m.next = "DISPATCH_COMMAND"
 
 
             # SEND_ACKS -- a valid header packet has been received, or we're advertising
@@ -548,6 +520,10 @@ class HeaderPacketReceiver(Elaboratable):
                     with m.If(acks_to_send == 1):
                         m.next = "DISPATCH_COMMAND"
 
+                # If the link goes down mid-command, return to dispatch; our state is re-armed below.
+                with m.If(link_reset):
+                    m.next = "DISPATCH_COMMAND"
+
 
             # ISSUE_CREDITS -- header packet buffers have been freed; and we now need to notify the
             # other side, so it knows we have buffers available.
@@ -570,6 +546,10 @@ class HeaderPacketReceiver(Elaboratable):
                     with m.If(credits_to_issue == 1):
                         m.next = "DISPATCH_COMMAND"
 
+                # If the link goes down mid-command, return to dispatch; our state is re-armed below.
+                with m.If(link_reset):
+                    m.next = "DISPATCH_COMMAND"
+
 
             # SEND_LBAD -- we've received a bad header packet; we'll need to let the other side know.
             with m.State("SEND_LBAD"):
@@ -582,6 +562,10 @@ class HeaderPacketReceiver(Elaboratable):
                 # (We can't ever have multiple LBADs queued up; as we ignore future packets after sending one.)
                 with m.If(lc_generator.done):
                     m.d.ss += lbad_pending.eq(0)
+                    m.next = "DISPATCH_COMMAND"
+
+                # If the link goes down mid-command, return to dispatch; our state is re-armed below.
+                with m.If(link_reset):
                     m.next = "DISPATCH_COMMAND"
 
 
@@ -597,6 +581,9 @@ class HeaderPacketReceiver(Elaboratable):
                     m.d.ss += lrty_pending.eq(0)
                     m.next = "DISPATCH_COMMAND"
 
+                # If the link goes down mid-command, return to dispatch; our state is re-armed below.
+                with m.If(link_reset):
+                    m.next = "DISPATCH_COMMAND"
 
 
             # SEND_KEEPALIVE -- our link layer timer has requested that we send a keep-alive,
@@ -617,6 +604,10 @@ class HeaderPacketReceiver(Elaboratable):
                     m.d.ss += keepalive_pending.eq(0)
                     m.next = "DISPATCH_COMMAND"
 
+                # If the link goes down mid-command, return to dispatch; our state is re-armed below.
+                with m.If(link_reset):
+                    m.next = "DISPATCH_COMMAND"
+
 
             # SEND_LXU -- we're being instructed to reject a requested power-state transfer.
             # We'll send an LXU packet to inform the other side of the rejection.
@@ -629,5 +620,46 @@ class HeaderPacketReceiver(Elaboratable):
                 with m.If(lc_generator.done):
                     m.d.ss += lxu_pending.eq(0)
                     m.next = "DISPATCH_COMMAND"
+
+                # If the link goes down mid-command, return to dispatch; our state is re-armed below.
+                with m.If(link_reset):
+                    m.next = "DISPATCH_COMMAND"
+
+
+        # Once we've become disabled (in whichever state), we'll want to prepare for our next enable.
+        # This means preparing for our advertisement, by:
+        with m.If(link_reset):
+            m.d.ss += [
+                # -Resetting our pending ACKs to 1, so we perform an sequence number advertisement
+                #  when we're next enabled.
+                acks_to_send          .eq(1),
+
+                # -Advertising the last header we've received [USB3.2r1: 7.2.4.1.1]; this also covers
+                #  headers whose LGOOD we still owed when the link went down.
+                next_header_to_ack    .eq(expected_sequence_number - 1),
+
+                # - Clearing all of our buffers.
+                read_pointer          .eq(0),
+                write_pointer         .eq(0),
+                buffers_filled        .eq(0),
+
+                # - Preparing to re-issue all of our buffer credits.
+                next_credit_to_issue  .eq(0),
+                credits_to_issue      .eq(self._buffer_count),
+
+                # - Clear our pending events.
+                lrty_pending          .eq(0),
+                lbad_pending          .eq(0),
+                keepalive_pending     .eq(0),
+                ignore_packets        .eq(0)
+            ]
+
+            # If this is a USB Reset, also reset our sequences.
+            with m.If(self.usb_reset):
+                m.d.ss += [
+                    expected_sequence_number  .eq(0),
+                    next_header_to_ack        .eq(-1)
+                ]
+
 
         return m
